@@ -14,6 +14,7 @@ def unit_tests(wt):
 BASE, OFF = "/tmp/mut", 0
 args = sys.argv[1:]
 if args and args[0] == "--round2": BASE, OFF, args = "/tmp/mut2", 2, args[1:]     # second round: /tmp/mut2/<ID>, filed as <ID>-3 / <ID>-4
+if args and args[0] == "--round3": BASE, OFF, args = "/tmp/mut4", 4, args[1:]     # third round: /tmp/mut4/<ID>, filed as <ID>-5 / <ID>-6
 for mid in args:
     wt = "%s/%s" % (BASE, mid); outd = "%s/%s.out" % (BASE, mid)
     for n in (1, 2):
